@@ -284,7 +284,9 @@ pub fn run(seed: u64, count: usize, outdir: &str) -> std::io::Result<i32> {
                 // tight where the shape is resolved (depth >= 5: cells of 1/16 or less)
                 // the tolerance follows the TRUE surface (estimated from the samples), not the mesh's own area: a mesh thrown far
                 // out of the region has a huge area and would excuse itself
-                let area = rep.area.min(1.25 * area_bound + 6.0 * cell * cell);
+                // (the TRUE area as estimated from the samples, whatever the mesh's own area is: neither a mesh thrown far out of the region
+                //  nor an empty mesh sets its own tolerance)
+                let area = 1.25 * area_bound + 6.0 * cell * cell;
                 let tol = if depth >= 5 { 0.15 * area * cell + 2.0 * cell.powi(3) + 0.004 * det + 0.5 * (2.0 / n as f64) * det.cbrt() * area }
                           else { 0.6 * area * cell + 2.0 * cell.powi(3) + 0.02 * det + 1.5 * (2.0 / n as f64) * area.max(1.0) };
                 // (leaf vertices are not clamped to their cells, so a feature of about one cell can come out inverted:
